@@ -103,7 +103,11 @@ def text_stream(seed, n, texts=(0, 2, 10), prog=None, few_cells=False, toggles=F
             if getattr(g, "recent", None) and r.random() < 0.12:
                 out.append(g.replay())      # A … B … A: an earlier group again after other traffic for the same cells
             else:
-                out.append(g.remember(P(g.pi(), b, w(), w(), *e)))
+                pi_ = g.pi()
+                cw = w()
+                if ver == 1 and r.random() < 0.6:
+                    cw = pi_ if r.random() < 0.85 else g.pi()      # version B: block C' repeats the PI, as real traffic does
+                out.append(g.remember(P(pi_, b, cw, w(), *e)))
         elif x < 0.97:
             out += settings()[: r.randrange(1, 9)]
         elif x < 0.985:
@@ -224,6 +228,7 @@ def streams(pid, tier, seed):
         du = infra.LAST_DUMPS.get("u")
         add("confusable", gen.sweep_confusable({b: v[1] for b, v in du["g0"].items() if v[0]} if du else None))
         add("aba", gen.sweep_aba())
+        add("ctrlpairs", gen.sweep_ctrl_pairs(stride(4, 1), seed))
         if not q: add("sweepCharsN", gen.sweep_chars(1, seed), "n")
     elif pid == "C03":
         add("mixed", mixed_stream(seed, 15000 if q else 200000)[0])
@@ -250,6 +255,8 @@ def streams(pid, tier, seed):
             add("thr%d" % t, gen.sweep_thresholds(t, stride(48, 2), seed + t))
         # the narrow build has a character rule of its own (bytes >= 0x7F): the same sweep on that build
         add("thrN", gen.sweep_thresholds(seed % 3, stride(96, 2), seed + 5), "n")
+        du = infra.LAST_DUMPS.get("u")
+        add("confusable", gen.sweep_confusable({b: v[1] for b, v in du["g0"].items() if v[0]} if du else None))
         add("text", text_stream(seed, 8000 if q else 200000))
     elif pid == "C07":
         add("prog", text_stream(seed, 20000 if q else 400000, prog=1, few_cells=True))
@@ -314,6 +321,7 @@ def twin_specs(pid, tier, seed):
         for i in range(reps * 4): T.append(("c13_%d" % i, twins.twin_c13(seed * 1000 + i, 300 + 200 * (i % 5), 1500 if q else 6000), "u", "u"))
         for k in range(64): T.append(("c13edge_%d" % k, twins.twin_c13_edge(k), "u", "u"))
         for k in range(8): T.append(("c13other_%d" % k, twins.twin_c13_other(k), "u", "u"))
+        for k in (range(0, 256, 3) if q else range(256)): T.append(("c13ecc_%d" % k, twins.twin_c13_ecc(k), "u", "u"))
         for j in range(12):
             for ext in (0, 1): T.append(("c13re_%d_%d" % (j, ext), twins.twin_reentrant_clear(j, ext, seed * 100 + j), "u", "u"))
     elif pid == "C14":
